@@ -80,6 +80,18 @@ func (r *resendContext) clear() {
 	r.messages.m = nil
 }
 
+// forget erases what is remembered for retransmission
+func (r *resendContext) forget() {
+	r.messages.Lock()
+	defer r.messages.Unlock()
+
+	for _, old := range r.messages.m {
+		wipeBytes(old.m)
+	}
+	r.messages.m = nil
+	r.mayRetransmit = noRetransmit
+}
+
 func (r *resendContext) shouldRetransmit() bool {
 	return len(r.messages.m) > 0 && r.mayRetransmit != noRetransmit
 }
